@@ -1,12 +1,5 @@
-\* Root module: the generated LocksOps.tla (or spec/LocksOps_sample.tla).
-CONSTANTS
-  Ops <- OpsDef
-  LockNames <- LockNamesDef
-  MultiThreads <- MultiThreadsDef
-  SerialPairs <- SerialPairsDef
-  NSlots <- NSlotsDef
-  OnlyOps <- OnlyOpsDef
-  Report <- ReportDef
+\* Root module: the generated LocksOps.tla (sample: spec/LocksOps_sample.tla),
+\* which INSTANCEs Locks with the extracted constants.
 INIT Init
 NEXT Next
 INVARIANTS
